@@ -12,7 +12,8 @@
                                      inside `Adj` is really given; an `info chol|gso|svd` line is echoed only if
                                      `FInfo.agrees alg q`.  If the model's homogenisation fails: the probe's nullity and
                                      the length test (`resolvesDefault`), as before
-    envinfo …                        facts for the envelope solver inside Adj (echoed); its resolution facts come from the
+    envinfo …                        facts for the envelope solver inside Adj (echoed only if `Info.agrees p`, round 13;
+                                     `info env` only if its defect is `defectP p`); its resolution facts come from the
                                      numeric problem (`Info.toInputOf`: `resolvesP p`, as Driver/EnvState.lean)
     state                            discrete state as GamaVerifProbe prints it
     x r rtr defect qxx qbb qbx lindep min_x_all min_x reset set_alg, fresh <query>
@@ -373,11 +374,20 @@ def step' (s : St) (line : String) : St × String :=
           else (s, s!"info-does-not-describe-the-problem {algName a} n {n} nullity {k} model-n {(Full.inputOf (lsAlg a) q).n} model-defect {(Full.inputOf (lsAlg a) q).nullity}")
         | none =>
           if n != p.n then (s, s!"info-does-not-describe-the-problem {algName a} n {n} model-n {p.n}")
+          -- round 13, adj entry, envelope: `Adj` hands the sparse solver the problem itself (it homogenises inside), so size
+          -- and `defect()` of a fresh `Adj` with the envelope algorithm must be those of `envSolve p` (`defectP`)
+          else if a = .env && k != defectP p then
+            (s, s!"info-does-not-describe-the-problem {algName a} n {n} nullity {k} model-n {p.n} model-defect {defectP p}")
           else ({ s with nul := fun b => if b = a then k else s.nul b }, " ".intercalate ts)
     | _, _, _ => (s, "bad-op")
   | "envinfo" :: rest =>
     match parseInfo rest with
-    | some f => ({ s with env := some f }, " ".intercalate ts)
+    | some f =>
+      -- round 13: as `Driver/EnvState.lean` — the probe's facts of the envelope solver inside `Adj` (ordering, size, defect)
+      -- must describe the numeric problem (`Info.agrees`: ordering 1-based and injective on 1..n, `n = p.n`,
+      -- `nullity = defectP p`); then `env_driver_input_is_instance` applies to the `EnvInput` `aInput` builds from them
+      if f.agrees p then ({ s with env := some f }, " ".intercalate ts)
+      else (s, s!"envinfo-does-not-describe-the-problem n {f.n} nullity {f.nullity} model-n {p.n} model-defect {defectP p}")
     | none => (s, "bad-op")
   | ["state"] =>
     match s.obj with
